@@ -11,6 +11,7 @@ LIB-SSE CODE
 @description: 
 """
 import json
+import os
 import pathlib
 import pickle
 import shutil
@@ -21,12 +22,25 @@ if not _PROGRAM_PATH.exists():
     _PROGRAM_PATH.mkdir(exist_ok=True)
 
 
+def _write_atomically(path, data: bytes):
+    """Write to a temporary file and rename it into place, so that a crash never leaves a partial file."""
+    tmp_path = str(path) + ".tmp"
+    with open(tmp_path, "wb") as f:
+        f.write(data)
+    os.replace(tmp_path, str(path))
+
+
 def check_sid_folder_exist(sid: str):
-    return _PROGRAM_PATH.joinpath(sid).exists()
+    # a service exists once its config and meta files are complete;
+    # a folder left behind by an interrupted config upload counts as "not configured"
+    service_dir_path = _PROGRAM_PATH.joinpath(sid)
+    return service_dir_path.exists() \
+           and service_dir_path.joinpath("config.json").exists() \
+           and service_dir_path.joinpath("service_meta").exists()
 
 
 def create_sid_folder(sid: str):
-    _PROGRAM_PATH.joinpath(sid).mkdir()
+    _PROGRAM_PATH.joinpath(sid).mkdir(exist_ok=True)
 
 
 def delete_sid_folder(sid: str):
@@ -42,8 +56,7 @@ def write_service_config(sid: str, config: dict):
     if not service_dir_path.exists():
         return
 
-    with open(service_dir_path.joinpath("config.json"), "w") as f:
-        json.dump(config, f)
+    _write_atomically(service_dir_path.joinpath("config.json"), json.dumps(config).encode("utf8"))
 
 
 def read_service_meta(sid: str) -> dict:
@@ -55,8 +68,7 @@ def write_service_meta(sid: str, meta: dict):
     if not service_dir_path.exists():
         return
 
-    with open(service_dir_path.joinpath("service_meta"), "wb") as f:
-        pickle.dump(meta, f)
+    _write_atomically(service_dir_path.joinpath("service_meta"), pickle.dumps(meta))
 
 
 def read_encrypted_database(sid: str) -> bytes:
@@ -69,5 +81,4 @@ def write_encrypted_database(sid: str, edb_bytes: bytes):
     if not service_dir_path.exists():
         return
 
-    with open(service_dir_path.joinpath("edb"), "wb") as f:
-        f.write(edb_bytes)
+    _write_atomically(service_dir_path.joinpath("edb"), edb_bytes)
